@@ -1617,7 +1617,14 @@ class FuncFileMove(ValueFunc):
     def execute(self, args, environment, pos):
         src = args.getString("src").value
         dest = args.getString("dest").value
-        os.rename(src, dest)
+        try:
+            os.rename(src, dest)
+        except Exception:
+            raise CklRuntimeError(
+                ValueString("ERROR"),
+                "Cannot move file " + src + " to " + dest,
+                pos,
+            )
         return NULL
 
 
